@@ -8,12 +8,38 @@ cd "$WT" || exit 2
 export CARGO_NET_OFFLINE=true CARGO_TERM_COLOR=never
 for diff in "$OUT"/m*.diff; do
   k=$(basename "$diff" .diff); demo="$OUT/${k}_demo.rs"; meta="$OUT/$k.json"
+  if [ ! -f "$demo" ] && [ -f "$OUT/${k}_demo.sh" ]; then
+    git checkout -q -- . ; sh_demo="$OUT/${k}_demo.sh"
+    bash "$sh_demo" >/dev/null 2>&1; c_rc=$?
+    git apply "$diff"; bash "$sh_demo" >/dev/null 2>&1; m_rc=$?
+    suite=$(cargo test --workspace --no-fail-fast --offline 2>&1 | grep -E "^test result" | awk '{p+=$4; f+=$6} END {print p" passed "f" failed"}')
+    git checkout -q -- .
+    echo "$PROP $k: shell demo clean_rc=$c_rc mutant_rc=$m_rc suite=[$suite]"
+    if [ $c_rc = 0 ] && [ $m_rc != 0 ] && echo "$suite" | grep -q " 0 failed"; then
+      d=/verif/seeded/$PROP-$k; mkdir -p "$d"; cp "$diff" "$d/patch.diff"; cp "$sh_demo" "$d/demo.sh"
+      python3 - "$meta" "$d/meta.json" "$PROP" "exit $c_rc" "exit $m_rc" "$suite" <<'PY'
+import json,sys
+src,dst,prop,cd,md,suite=sys.argv[1:7]
+try: m=json.load(open(src))
+except Exception: m={}
+out={"property":prop,"summary":m.get("summary",""),"needs":m.get("needs",""),"site":m.get("site",""),
+ "origin":"independent sub-agent given only the property text and a scratch worktree",
+ "confirmed":{"how":"tools/confirm_mutants.sh in the scratch worktree: shell demonstration (demo.sh) run with and without the patch; existing suite with the patch",
+   "demo_on_clean_tree":cd,"demo_with_patch":md,"existing_suite_with_patch":suite}}
+json.dump(out,open(dst,'w'),indent=1)
+PY
+      echo "$PROP $k: confirmed=1"
+    fi
+    continue
+  fi
   [ -f "$demo" ] || { echo "$PROP $k: no demo"; continue; }
   git checkout -q -- . ; rm -f tests/m*_demo.rs
   cp "$demo" tests/${k}_demo.rs
   clean_demo=$(cargo test --offline --test ${k}_demo 2>&1 | grep -E "^test result" | head -1)
   git apply "$diff" || { echo "$PROP $k: patch does not apply"; rm -f tests/${k}_demo.rs; continue; }
-  mut_demo=$(cargo test --offline --test ${k}_demo 2>&1 | grep -E "^test result" | head -1)
+  mut_out=$(cargo test --offline --test ${k}_demo 2>&1); mut_rc=$?
+  mut_demo=$(echo "$mut_out" | grep -E "^test result" | head -1)
+  [ -z "$mut_demo" ] && [ $mut_rc -ne 0 ] && mut_demo="FAILED (test process aborted: $(echo "$mut_out" | grep -E "signal|SIGABRT|SIGSEGV|overflowed its stack" | head -1 | cut -c1-160))"
   rm -f tests/${k}_demo.rs
   feat_build=$(cargo build --offline --features rand,serde,quickcheck,arbitrary 2>&1 | tail -1)
   suite=$(cargo test --workspace --no-fail-fast --offline 2>&1 | grep -E "^test result" | awk '{p+=$4; f+=$6} END {print p" passed "f" failed"}')
